@@ -433,6 +433,26 @@ def run(index, rep, tier):
         nb += c02.lossless_format_rule(index, rep, "R14.8", ["dendropy.calculate.phylogeneticdistance"])
         rep.floor("R14.8", "borrowed obligations and format strings", 6, nb)
 
+    # ---- R14.9 a matrix compiled from a table supports the same summaries
+    with rep.section("R14.9"):
+        rep.rule("R14.9", "a matrix compiled from a table (from_csv / compile_from_dict) supports the same pairwise summaries as one compiled from a tree: every compile_from_* function that fills the distance table also fills the set of distinct taxon pairs that mean_pairwise_distance, distances and sum_of_distances iterate")
+        PDMq = "dendropy.calculate.phylogeneticdistance.PhylogeneticDistanceMatrix"
+        pdm = index.klass(PDMq)
+        readers = [m for m in pdm.methods.values() if any(isinstance(l, ast.For) and norm(l.iter) == "self._all_distinct_mapped_taxa_pairs" for l in ast.walk(m.node))]
+        rep.floor("R14.9", "summaries iterating the pair set", 2, len(readers))
+        ncomp = 0
+        for m in pdm.methods.values():
+            if not m.name.startswith("compile_from_"):
+                continue
+            fills_d = any(w.attr == "_taxon_phylogenetic_distances" and w.kind in ("substore", "mutcall") for w in writes_in(m.node)) or any(isinstance(t, ast.Subscript) and "_taxon_phylogenetic_distances" in norm(t) for a in ast.walk(m.node) if isinstance(a, ast.Assign) for t in a.targets)
+            if not fills_d:
+                continue
+            ncomp += 1
+            fills_p = any(call_name(c) in ("add", "update") and norm(c.func.value) == "self._all_distinct_mapped_taxa_pairs" for c in calls_in(m.node, nested=True))
+            rep.check(fills_p, "R14.9", m.qualname, "distance table filled without the pair set", fn_where(m), "%s fills the distinct-pair set" % m.name,
+                      "%s fills the distance table but never adds to `_all_distinct_mapped_taxa_pairs`, which mean_pairwise_distance(), distances() and sum_of_distances() iterate (%d readers): a matrix read back from CSV then has no pairs - mean_pairwise_distance raises NullAssemblageException and distances() is empty although every entry is there" % (m.qualname, len(readers)))
+        rep.floor("R14.9", "compile functions filling the distance table", 2, ncomp)
+
 
 def option_default_rule(index, rep, rid, cq, options):
     ci = index.klass(cq)
